@@ -453,6 +453,13 @@ func (db *DB) WaitPosExact(ctx context.Context, target ltx.Pos) error {
 	}
 }
 
+// HoldsHaltLock returns true if the halt lock with the given identifier is
+// currently held locally (i.e. this node is the primary and granted it).
+func (db *DB) HoldsHaltLock(id int64) bool {
+	curr := db.haltLockAndGuard.Load().(*haltLockAndGuard)
+	return curr != nil && id != 0 && curr.haltLock.ID == id
+}
+
 // RemoteHaltLock returns a copy of the current remote lock, if any.
 func (db *DB) RemoteHaltLock() *HaltLock {
 	value := db.remoteHaltLock.Load().(*HaltLock)
